@@ -128,7 +128,11 @@ func (m *machine) registerIntrinsics() {
 		return nil
 	}
 	in[vs+"Observe"] = func(fr *frame, fn *ssa.Function, args []value) value {
-		fr.i.observed = append(fr.i.observed, toString(args[0]))
+		if s, ok := args[0].(string); ok {
+			fr.i.observed = append(fr.i.observed, s)
+		} else {
+			fr.i.observed = append(fr.i.observed, toString(args[0]))
+		}
 		return nil
 	}
 	in[vs+"KnownFinding"] = func(fr *frame, fn *ssa.Function, args []value) value {
@@ -139,12 +143,32 @@ func (m *machine) registerIntrinsics() {
 		return nil
 	}
 	in[vs+"ExploreSchedules"] = func(fr *frame, fn *ssa.Function, args []value) value {
-		fr.i.explore = true
-		fr.i.preempts = int(asInt64(args[0]))
+		n := int(asInt64(args[0]))
+		fr.i.explore = n > 0
+		fr.i.preempts = n
+		if n > 0 {
+			fr.i.everExplored = true
+		}
 		return nil
 	}
 	in[vs+"Yield"] = func(fr *frame, fn *ssa.Function, args []value) value {
 		fr.i.visible(fr, "yield")
+		return nil
+	}
+	in[vs+"EventBegin"] = func(fr *frame, fn *ssa.Function, args []value) value {
+		lab := toString(args[0])
+		if s, ok := args[0].(string); ok {
+			lab = s
+		}
+		fr.i.visible(fr, "event:"+lab)
+		fr.i.events = append(fr.i.events, lab)
+		fr.i.atomic++
+		return 0
+	}
+	in[vs+"EventEnd"] = func(fr *frame, fn *ssa.Function, args []value) value {
+		if fr.i.atomic > 0 {
+			fr.i.atomic--
+		}
 		return nil
 	}
 	in[vs+"Hash"] = func(fr *frame, fn *ssa.Function, args []value) value {
